@@ -63,6 +63,15 @@ func TestVerifC04(t *testing.T) {
 			d := vBaseDoc(0, 4*time.Second) // a periodic tick every 4 s
 			f := &d.Ifaces[0]
 			f.Name = model.S(fmt.Sprintf("veth%d", k))
+			// "all other content is unchanged": give the other header fields and
+			// options non-default values so that a change to any of them shows
+			f.Preference = model.S([]string{"low", "high", "medium", "high"}[(i+k)%4])
+			f.Managed, f.OtherConfig = model.B((i+k)%2 == 0), model.B((i+k)%3 == 0)
+			f.HopLimit = model.I(int64(32 + (i+k)%200))
+			f.ReachableTime, f.RetransmitTimer = model.D(int64(time.Duration(10+i%50)*time.Second)), model.D(int64(time.Duration(1+i%9)*time.Second))
+			f.MTU = model.I(1280 + int64(i%200))
+			f.Routes = []model.RouteSt{{Prefix: model.MkCIDR("2001:db8:ffff::/48"), Preference: model.S("low")}}
+			f.PREF64 = []model.PREF64St{{}}
 			switch lifetimeKind {
 			case 0:
 				f.DefaultLifetime = model.D(0)
